@@ -119,6 +119,46 @@ def truth_by_distance(pred, idx, L):
     return vals, ""
 
 
+def peeled_iter(it, RAT, same_ratios):
+    """the fold loop written over all folds but the last: zip(range(n-1), ratios), zip(folds[:-1], ratios), range(n-1),
+    enumerate(ratios[:-1]); -> dict(idx, ratio, ratios, short = number of folds left out, dest / container for the zip-of-lists form)"""
+    def short_of(rng, R):
+        # range(len(R) - c) -> c
+        if rng[0] == "ext" and rng[1] == "range" and len(rng[2]) == 1 and not rng[3]:
+            d = dict(poly(rng[2][0]))
+            Lk = (("ext", "len", (R,), ()),)
+            if d.get(Lk) == 1 and set(d) <= {Lk, ()}:
+                c = -d.get((), 0)
+                return int(c) if c == int(c) and c >= 1 else None
+        return None
+
+    def cut_of(t):
+        # X[:-c] -> (X, c)
+        if t[0] == "sub" and t[2][0] == "slice" and t[2][1] == NONE_ and t[2][3] == NONE_ and is_const(t[2][2]) and isinstance(t[2][2][1], int) and t[2][2][1] < 0:
+            return t[1], -t[2][2][1]
+        return None, None
+    if it[0] == "ext" and it[1] == "zip" and len(it[2]) == 2 and not it[3]:
+        for a, r in (it[2], it[2][::-1]):
+            if not same_ratios(r):
+                continue
+            c = short_of(a, r)
+            if c is not None:
+                return {"idx": ("elem", a), "ratio": ("elem", r), "ratios": r, "short": c}
+            X, c = cut_of(a)
+            if X is not None:
+                return {"idx": None, "ratio": ("elem", r), "ratios": r, "short": c, "dest": ("elem", a), "container": X}
+    if it[0] == "ext" and it[1] == "range":
+        for R in {x for x in walk(it) if same_ratios(x)}:
+            c = short_of(it, R)
+            if c is not None:
+                return {"idx": ("elem", it), "ratio": ("sub", R, ("elem", it)), "ratios": R, "short": c}
+    if it[0] == "ext" and it[1] == "enumerate" and len(it[2]) == 1 and not it[3]:
+        X, c = cut_of(it[2][0])
+        if X is not None and same_ratios(X):
+            return {"idx": ("idx", it[2][0]), "ratio": ("elem", it[2][0]), "ratios": X, "short": c}
+    return None
+
+
 def run(prog, rep, tier):
     f = need(prog, Q)
     S = Sym(prog, inline=inline_helpers(prog, "sempler.utils"))
@@ -170,7 +210,7 @@ def run(prog, rep, tier):
         src = it[2][0]
     elif it[0] == "ext" and it[1] == "range" and len(it[2]) == 1 and it[2][0][0] == "ext" and it[2][0][1] == "len" and len(it[2][0][2]) == 1:
         src = it[2][0][2][0]
-    if src is not None and src != RAT:
+    if src is not None and src != RAT and peeled_iter(it, RAT, same_ratios) is None:
         # the loop runs over another vector than the caller's ratios (e.g. ratios / sum(ratios)): the fold sizes are then
         # round(n * something else) - with ratios summing to 0.9999999999999999 a tie n * r = k + 0.5 rounds the other way
         if same_ratios(src):
@@ -181,13 +221,18 @@ def run(prog, rep, tier):
         rep.bad("SIZE.round", fwhere(f, inner["node"]), "the fold loop runs over %s, not over the caller's ratios: fold sizes are not round(len(sample) * ratio_i)" % fmt(rescaled)[:80])
         return
     L = ("ext", "len", (RATL,), ())
+    peeled = None            # the loop covers all folds but the last one, which is served after it ("peeled" last iteration)
     if it == ("ext", "enumerate", (RATL,), ()):
         idx, ratio = ("idx", RATL), ("elem", RATL)
     elif it == ("ext", "range", (L,), ()):
         idx = ("elem", it)
         ratio = ("sub", RATL, idx)
     else:
-        raise Inconclusive("split_data: fold loop iterates %s" % fmt(it), inner["node"])
+        peeled = peeled_iter(it, RAT, same_ratios)
+        if peeled is None:
+            raise Inconclusive("split_data: fold loop iterates %s" % fmt(it), inner["node"])
+        idx, ratio, RATL = peeled["idx"], peeled["ratio"], peeled["ratios"]
+        L = ("ext", "len", (RATL,), ())
     apps = [c for c in S.select("call", qname=Q) if c.callkind == "method" and c.target == ".append" and lin in c.loops]
     if len(apps) == 2 and apps[0].recv == apps[1].recv and len(apps[0].path) == len(apps[1].path) and apps[0].path and \
             tuple(apps[0].path[:-1]) == tuple(apps[1].path[:-1]) and apps[0].path[-1][0] == apps[1].path[-1][0] and \
@@ -211,24 +256,50 @@ def run(prog, rep, tier):
                  {x[1] for v in inner["next"].values() for x in walk(v) if isinstance(x, tuple) and x[0] == "unbound"})
     rep.check("DEFINED.reads", not unb, fwhere(f, inner["node"]), "every variable read in the fold loop is assigned on every path",
               "variable(s) %s may be read before assignment on some path" % unb)
-    if val[0] != "phi":
-        rep.bad("LAST.branch", fwhere(f, ap.node), "no separate remainder slice for the last fold: %s" % fmt(val)[:100])
-        return
-    C, X, Y = val[1], val[2], val[3]
-
     def is_slice(t):
         return t[0] == "sub" and t[2][0] == "slice"
-    if not (is_slice(X) and is_slice(Y)):
-        rep.bad("CONTIG.slices", fwhere(f, ap.node), "fold contents are not slices of the shuffled sample")
+    post = None
+    if peeled is not None:
+        # the remainder is appended after the loop, once per environment
+        posts = [c for c in S.select("call", qname=Q) if c.callkind == "method" and c.target == ".append" and lin not in c.loops and lo in c.loops and c.order > ap.order]
+        if len(posts) != 1 or tuple(posts[0].path) != tuple(ap.path):
+            rep.bad("LAST.branch", fwhere(f, inner["node"]), "the fold loop leaves out the last fold (it runs over %s) and %d unconditional append(s) follow it: the last fold must "
+                    "receive the remainder exactly once per environment" % (fmt(it)[:60], len(posts)))
+            return
+        post = posts[0]
+        X, Y = val, post.args[0]
+        if val[0] == "phi" or not (is_slice(X) and is_slice(Y)):
+            rep.unk("LAST.branch", fwhere(f, ap.node), "loop over the first n-1 folds whose body is not a plain slice: not read")
+            return
+        rem_is_X, C = False, None
+        rem, bnd = Y, X
+        if bnd[2][2] == NONE_ or rem[2][2] != NONE_:
+            rep.bad("LAST.branch", fwhere(f, ap.node), "expected bounded slices inside the loop and one open-ended remainder slice after it")
+            return
+        short = peeled["short"]
+        if short == 1:
+            rep.ok("LAST.exact", fwhere(f, post.node), "the loop serves folds 0..n-2 with bounded slices, the open-ended remainder goes to the last fold after the loop")
+        else:
+            rep.bad("LAST.exact", fwhere(f, inner["node"]), "the loop leaves out %s fold(s) at the end, the remainder is appended once: fold(s) in between stay empty or are served twice" % short)
+        vals = "peeled"
+    elif val[0] != "phi":
+        rep.bad("LAST.branch", fwhere(f, ap.node), "no separate remainder slice for the last fold: %s" % fmt(val)[:100])
         return
-    rem_is_X = X[2][2] == NONE_
-    rem, bnd = (X, Y) if rem_is_X else (Y, X)
-    if bnd[2][2] == NONE_ or rem[2][2] != NONE_:
-        rep.bad("LAST.branch", fwhere(f, ap.node), "expected one bounded slice and one open-ended remainder slice")
-        return
-    bcond = npred(C, not rem_is_X)
-    vals, why = truth_by_distance(bcond, idx, L)
-    if vals is None:
+    else:
+        C, X, Y = val[1], val[2], val[3]
+        if not (is_slice(X) and is_slice(Y)):
+            rep.bad("CONTIG.slices", fwhere(f, ap.node), "fold contents are not slices of the shuffled sample")
+            return
+        rem_is_X = X[2][2] == NONE_
+        rem, bnd = (X, Y) if rem_is_X else (Y, X)
+        if bnd[2][2] == NONE_ or rem[2][2] != NONE_:
+            rep.bad("LAST.branch", fwhere(f, ap.node), "expected one bounded slice and one open-ended remainder slice")
+            return
+        bcond = npred(C, not rem_is_X)
+        vals, why = truth_by_distance(bcond, idx, L)
+    if vals == "peeled":
+        pass
+    elif vals is None:
         rep.bad("LAST.exact", fwhere(f, ap.node), "remainder branch: " + why)
     else:
         ok = vals[0] is False and all(vals[t] for t in range(1, 8))
@@ -251,13 +322,16 @@ def run(prog, rep, tier):
             size = up_[3] if up_[2] == mu else up_[2]
         nx = inner["next"][nm]
         adv = None
-        if nx[0] == "phi":
+        if nx[0] == "phi" and peeled is not None:
+            adv = None
+        elif nx[0] == "phi":
             a, b = (nx[2], nx[3])
             pol = npred(nx[1], True)
             adv = a if pol == npred(C, not rem_is_X) else (b if npred(nx[1], False) == npred(C, not rem_is_X) else None)
         elif size is not None and nx in (("binop", "+", mu, size), ("binop", "+", size, mu)):
             adv = nx
-        okc = size is not None and rem[1] == Sarr and rem[2][1] == mu and is_const(inner["init"][nm], 0) and adv is not None and \
+        cursor_at_rem = mu if peeled is None else ("after", lin, nm)
+        okc = size is not None and rem[1] == Sarr and rem[2][1] == cursor_at_rem and is_const(inner["init"][nm], 0) and adv is not None and \
             adv in (("binop", "+", mu, size), ("binop", "+", size, mu)) and bnd[2][3] == NONE_ and rem[2][3] == NONE_
         why = "bounded=%s remainder=%s cursor'=%s init=%s" % (fmt(bnd)[:70], fmt(rem)[:50], fmt(nx)[:80], fmt(inner["init"][nm]))
         if okc:
@@ -314,12 +388,24 @@ def run(prog, rep, tier):
             return "list"
         return None
     kind = container_kind(recv[1]) if recv[0] == "sub" and recv[2] == idx else None
+    Cn_ = recv[1] if kind is not None else None
+    if peeled is not None and kind is None and recv == peeled.get("dest"):
+        # for fold, ratio in zip(folds[:-1], ratios): fold.append(...)
+        Cn_ = peeled["container"]
+        kind = container_kind(Cn_)
+        kind = kind if kind == "list" else None
+    if peeled is not None and kind is not None:
+        # ... and the remainder goes to the last list of the same container
+        last_keys = [("binop", "-", L, ("const", 1))] + ([("const", -1)] if kind == "list" else [])
+        if not (post.recv[0] == "sub" and post.recv[1] == Cn_ and post.recv[2] in last_keys):
+            rep.bad("FLOW.destination", fwhere(f, post.node), "the remainder is appended to %s, not to the last fold" % fmt(post.recv)[:80])
+            kind = None
     okd = kind is not None
     rep.check("FLOW.destination", okd, fwhere(f, ap.node), "appended to folds[i] of a container with one empty list per fold", "the slice is not appended to the fold with the loop's index")
     ret = T(summ.ret)
     okr = False
     if okd:
-        Cn = recv[1]
+        Cn = Cn_
         in_order = ret[0] == "comp" and ret[1] == "list" and ret[2] == ("sub", Cn, key) and gen_ok(ret[3])
         if kind == "dict":
             okr = ret == ("ext", "list", (("method", Cn, "values", (), ()),), ()) or in_order
